@@ -13,6 +13,7 @@ import itertools
 import struct
 
 ID = "C07"
+MODEL_NEEDS_IMPL = True    # only to accept either admissible outcome where the model marks an input "may ignore"
 # single model variant: both recorded findings are fixed in /repo (7065ffb, 890d5a0); a regression to the old panics is a VIOLATION
 
 _H = "harness/C07/"
@@ -557,6 +558,12 @@ def gen_cases(rng, tier, budget):
                     add(case("disp", [p, 1, 1 if p == 0x57 else 0, 1], fr[:2] + be16(L) + fr[4:]))
                 for k in range(len(fr)):
                     add(case("disp", [p, 1, 0, 0], fr[:k]))
+    # PPP-IPv6 (0x0057): well-formed IPv6 datagrams (exactly one admissible outcome: handed to the host when IPv6CP is open)
+    # and not-IPv6 payloads around the 40-byte header / version nibble (may be dropped by a stricter dispatcher)
+    for n in (39, 40, 41, 60, 200):
+        for first in (0x60, 0x6f, 0x40, 0x00, 0x70):
+            for (net, v6, fsm) in ((1, 1, 1), (0, 1, 1), (1, 0, 1), (1, 0, 0), (2, 1, 2)):
+                add(case("disp", [0x57, net, v6, fsm], bytes([first]) + rb(rng, n - 1)))
     for s in short_strings(tier, True):
         add(case("l2ppp", [1, 0, 0], s))
         add(case("l2ppp", [1, 0, 1], b"\xff\x03" + s))
@@ -1008,7 +1015,7 @@ def _payload(case_line):
 
 
 def nontrivial(case_line, impl):
-    if impl in ("err 1", "nocrash", "ok 0", "ok nil", "ok -") and not case_line.startswith("fz"):
+    if impl in ("err", "nocrash", "ok 0", "ok nil", "ok -") and not case_line.startswith("fz"):
         return False
     return True
 
@@ -1056,8 +1063,7 @@ def classify(case_line, impl, model):
         return "G", "%s: the model predicts %s but the implementation returned %r" % (e, model, impl[:120])
     if impl.split(" ", 1)[0] != model.split(" ", 1)[0]:
         return "P", "%s: accepted/rejected differently: implementation %r, model %r" % (e, impl[:160], model[:160])
-    if impl.startswith("err"):
-        return "P", "%s: rejected for a different reason: implementation %r, model %r" % (e, impl, model)
+
     it, mt = impl.split(), model.split()
     k = next((i for i, (a, b) in enumerate(zip(it, mt)) if a != b), min(len(it), len(mt)))
     return "P", "%s: parsed value differs from the proved model at token %d: implementation %r, model %r" % (
